@@ -125,6 +125,17 @@ class Prop(PropBase):
         DM = self._DM(dmv, case)
         delays = DM.sample_delay(z.channel_freqs, z.center_freq if ref is None else ref, z.sample_rate)
         out = {"delays": [X.rat(X.frac(float(d))) for d in np.atleast_1d(delays)], "dm": dmv}
+        rej = []
+        for lab, fn in (("incoherent_dedispersion(Signal)", lambda: pb.incoherent_dedispersion(pb.Signal(np.asarray(z.data), sample_rate=z.sample_rate), DM)),
+                        ("incoherent_dedispersion(ndarray)", lambda: pb.incoherent_dedispersion(np.asarray(z.data), DM))):
+            try:
+                fn()
+                rej.append(lab + " accepted")
+            except TypeError:
+                pass
+            except Exception as e:      # noqa
+                rej.append(f"{lab}: {err_name(e)} instead of TypeError")
+        out["rejects"] = rej
         try:
             y = pb.incoherent_dedispersion(z, DM, ref_freq=ref) if ref is not None else pb.incoherent_dedispersion(z, DM)
         except Exception as e:
@@ -223,6 +234,7 @@ class Prop(PropBase):
             if not X.close(F(code["td_rev"]), -exact, atol=tol):
                 return "time_delay not antisymmetric"
             return None
+        # (argument checks that the property does not state are observed in `rejects` for the evidence, not judged)
         if "err" in code:
             return f"raised {code['err']} (a request with no valid sample must give an empty signal)"
         if code.get("lazy_ok") is False or "lazy_err" in code:
